@@ -114,7 +114,7 @@ PROPS = {
         ],
     },
     "C16": {
-        "units": ["x509", "tacd"],
+        "units": ["x509", "tacd", "tacdmain"],
         "design_ref": "DESIGN.md section 5 C16",
         "technique": "Verus function contracts over a ghost view of the OpenSSL certificate builder; the ALPN callback's contract is a precondition of its registration",
         "text": "Deductive proof that the certificate tacd serves is X.509 v3, self-issued and self-signed by the generated key, valid from now for "
@@ -124,7 +124,8 @@ PROPS = {
         "assumptions": [
             "T: OpenSSL encodes what the builder calls describe (extension text `critical,DER:..` as written); select_next_proto as documented; the TLS stack",
             "T: str::split semantics as stated in prelude/vmap.rs",
-            "X: the handshake as a client sees it; listeners and input sources (tacd main.rs: domain is passed through to_idna before from_acme_ext - not under contract); "
+            "T: clap::ArgMatches as a map from option names to values, the input sources (file / stdin) as uninterpreted lines (prelude/tacdmain_shims.rs); tacd main.rs::init and get_acme_value are verified: the served certificate is for the A-label form of the requested domain",
+            "X: the handshake as a client sees it; "
             "the digest text inside the extension value (computed by acmed, C05)",
         ],
     },
